@@ -174,16 +174,31 @@ def main():
     from vt import kf
     kf_lines = []
     probes = getattr(P, "FINDING_PROBES", {})
+    # concrete probes of repaired defects run in their own process on plain CPython with the real libraries (vt/probes.py)
+    ext = {}
+    if not a.only:
+        rc, so, se = _run([PY, "-W", "ignore", "-m", "vt.probes", pid], {"VT_MODE": "real"}, 300)
+        try:
+            ext = json.loads(so.strip().splitlines()[-1])
+        except Exception:
+            harness_errors.append({"name": "vt.probes", "why": "probe process failed rc=%s %s" % (rc, se[-500:])})
+    probes_run = []
     for e in kf.load():
         if e.get("property") != pid:
             continue
         probe = probes.get(e["id"])
-        if probe is None:
+        if probe is None and e["id"] not in ext:
             continue
         try:
-            still = bool(probe())
+            if probe is not None:
+                still = bool(probe())
+            else:
+                still = ext[e["id"]]
+                if not isinstance(still, bool):
+                    raise RuntimeError(still)
         except Exception as ex:
             harness_errors.append({"name": e["id"], "why": "finding probe crashed: %r" % ex}); continue
+        probes_run.append({"id": e["id"], "status": e.get("status"), "reproduces": still})
         if e.get("status") == "open":
             if still:
                 kf_lines.append("KNOWN-FINDING: property=%s %s" % (pid, e["what"]))
@@ -215,6 +230,13 @@ def main():
                "wall_s": r.get("wall_s"), "twin": (twin_r.get(n) or {}).get("status")} for n, r in sorted(main_r.items())]
     if not samples:
         samples = [{"obligation": n, "cfg": byname[n].get("cfg")} for n in list(main_r)[:5]]
+    try:
+        import klongpy as _kp
+        repo_root = os.path.dirname(os.path.dirname(os.path.abspath(_kp.__file__)))
+        head = subprocess.run(["git", "-C", repo_root, "rev-parse", "--short", "HEAD"], capture_output=True, text=True).stdout.strip()
+        dirty = bool(subprocess.run(["git", "-C", repo_root, "status", "--porcelain", "--untracked-files=no"], capture_output=True, text=True).stdout.strip())
+    except Exception:
+        repo_root, head, dirty = "?", "?", None
     ev = {
         "property_id": pid, "tier": a.tier, "seed": seed, "level": "model_checking",
         "coverage": {
@@ -235,17 +257,20 @@ def main():
             "solver": "z3 %s via crosshair-tool 0.0.110" % __import__("z3").get_version_string(),
             "solver_queries": scalls, "solver_s": round(ssecs, 2),
             "per_obligation": per_ob, "extra_obligations": extra,
-            "known_findings_reported": kf_lines,
+            "known_findings_reported": kf_lines, "finding_probes": probes_run,
             "model_conformance_gate": ({k: gate.get(k) for k in ("ok", "cases", "agree", "outside_model", "n_disagree")} if gate else None),
             "violations": violations,
             "checker_cmd": "./check %s --tier %s" % (pid, a.tier),
+            "source_analysed": {"root": repo_root, "git_head": head, "working_tree_modified": dirty,
+                                "note": "the harnesses import and execute these sources directly; nothing is cached between runs"},
         },
         "assumptions": getattr(P, "ASSUMPTIONS", []),
         "wall_s": round(wall, 2), "violations": len(violations),
     }
     if not a.only:
-        os.makedirs(os.path.join(ROOT, "evidence"), exist_ok=True)
-        json.dump(ev, open(os.path.join(ROOT, "evidence", pid + ".json"), "w"), indent=1, default=str)
+        evdir = os.environ.get("VT_EVIDENCE_DIR") or os.path.join(ROOT, "evidence")
+        os.makedirs(evdir, exist_ok=True)
+        json.dump(ev, open(os.path.join(evdir, pid + ".json"), "w"), indent=1, default=str)
     shutil.rmtree(workdir, ignore_errors=True)
 
     print("%s tier=%s obligations=%d discharged=%d inconclusive=%d violations=%d harness_errors=%d paths=%d solver_s=%.1f wall=%.1fs"
